@@ -130,7 +130,9 @@ Record linv (p : params) (s : state) (log : list bmsg) : Prop := mklinv {
   l_prepR_le : decided s = false -> prepR s <= round s;
   l_rc : forall b, In b log -> ty b = RoundChange -> decided s = false -> rnd b <= round s;
   l_rc_lock : forall c b, In c log -> In b log -> ty c = Commit -> ty b = RoundChange -> rnd c < rnd b ->
-              rnd c <= pr b /\ (rnd c = pr b -> val c = pv b)
+              rnd c <= pr b /\ (rnd c = pr b -> val c = pv b);
+  l_commit_pos : forall b, In b log -> ty b = Commit -> 1 <= rnd b;
+  l_prep_pos : forall b, In b log -> ty b = Prepare -> 1 <= rnd b
 }.
 
 Lemma linv_init : forall p, linv p init [].
@@ -138,7 +140,7 @@ Proof. intro p. constructor; simpl; intros; try contradiction; try lia. Qed.
 
 Lemma linv_effects : forall p s s' outs log, linv p s log -> effects p s s' outs -> linv p s' (log ++ bc_mains outs).
 Proof.
-  intros p s s' outs log [L1 L2 L3 L4 L5 L6 L7 L8 L9 L10] E.
+  intros p s s' outs log [L1 L2 L3 L4 L5 L6 L7 L8 L9 L10 L11 L12] E.
   destruct E as [E1 [E2 [E3 [E4 [E5 [E6 [E7 [E8 [E9 [E10 E11]]]]]]]]]].
   set (B := bc_mains outs) in *.
   assert (HB : B = [] \/ exists x, B = [x]).
@@ -157,6 +159,8 @@ Proof.
     + apply in_app_or in H. destruct H as [H|H]; [|destruct (Hnp b H); tauto]. rewrite Hpr, Hpv. auto.
     + apply in_app_or in H, H0. destruct H as [H|H]; [|destruct (Hnp c H); tauto].
       destruct H0 as [H0|H0]; [|destruct (Hnp b H0); tauto]. eauto.
+    + apply in_app_or in H. destruct H as [H|H]; [|destruct (Hnp b H); tauto]. eauto.
+    + apply in_app_or in H. destruct H as [H|H]; [|destruct (Hnp b H); tauto]. eauto.
   - destruct (decided s') eqn:Hd'.
     + (* this step decides: nothing is broadcast *)
       rewrite (E10 eq_refl eq_refl) in *. rewrite app_nil_r.
@@ -212,6 +216,10 @@ Proof.
         -- exfalso. destruct (E7 c H H1) as [_ [Hr _]]. specialize (L9 b H0 H2 eq_refl). lia.
         -- exfalso. destruct HB as [HB|[x HB]]; rewrite HB in *; [contradiction|].
            destruct H as [H|[]], H0 as [H0|[]]. congruence.
+      * apply in_app_or in H. destruct H as [H|H]; [eauto|].
+        destruct (E7 b H H0) as [_ [Hr _]]. specialize (L2 eq_refl). lia.
+      * apply in_app_or in H. destruct H as [H|H]; [eauto|].
+        destruct (E6 b H H0) as [_ [Hr _]]. lia.
 Qed.
 
 Lemma linv_fstep : forall p s e o s' outs log, 1 <= nodes p -> inv p s -> linv p s log ->
@@ -252,3 +260,120 @@ Proof. intros p ls s Hn H. exact (l_rc_lock p s _ (run_linv p ls s Hn H)). Qed.
 Theorem own_broadcasts_signed_self : forall p ls s, 1 <= nodes p -> run p init ls = Some s ->
   forall b, In b (log_of ls) -> src b = self p.
 Proof. intros p ls s Hn H. exact (l_src p s _ (run_linv p ls s Hn H)). Qed.
+
+(* ------------------------------------------------------------------------------------------ *)
+(* Provenance: what is in the buffer / prepared justification / qcommit came in messages         *)
+
+(* parts of the message an event delivers *)
+Definition ev_parts (e : event) : list bmsg := match e with ERecv m _ => main m :: just m | _ => [] end.
+Definition ev_cmpfail (e : event) : bool := match e with ERecv _ CmpFail => true | _ => false end.
+
+Lemma In_skipn : forall {A} k (l : list A) x, In x (skipn k l) -> In x l.
+Proof.
+  intros A k. induction k as [|k IH]; intros l x H; [exact H|].
+  destruct l as [|y l]; [exact H|]. right. apply IH. exact H.
+Qed.
+
+Lemma flat_msgs_In : forall ms b, In b (flat_msgs ms) <-> exists m, In m ms /\ (main m = b \/ In b (just m)).
+Proof.
+  intros ms b. unfold flat_msgs. rewrite in_flat_map. split; intros [m [Hm Hb]]; exists m; (split; [assumption|]); simpl in *; tauto.
+Qed.
+
+Lemma flat_msgs_lastn : forall k ms b, In b (flat_msgs (lastn k ms)) -> In b (flat_msgs ms).
+Proof.
+  intros k ms b H. apply flat_msgs_In in H. destruct H as [m [Hm Hb]]. apply flat_msgs_In. exists m. split; [|assumption].
+  unfold lastn in Hm. eapply In_skipn. eassumption.
+Qed.
+
+Lemma flat_buffer_add : forall k buf m b, In b (flat (buffer_add k buf m)) -> In b (flat buf) \/ main m = b \/ In b (just m).
+Proof.
+  intros k buf m b. induction buf as [|[s0 q0] buf IH]; simpl; intro H.
+  - unfold flat in H. simpl in H. rewrite app_nil_r in H. apply flat_msgs_lastn in H. simpl in H. rewrite app_nil_r in H. tauto.
+  - destruct (s0 =? src (main m)).
+    + unfold flat in H |- *. simpl in H |- *. apply in_app_or in H. destruct H as [H|H].
+      * apply flat_msgs_lastn in H. unfold flat_msgs in H. rewrite flat_map_app in H. apply in_app_or in H.
+        destruct H as [H|H]; [left; apply in_or_app; left; exact H|]. simpl in H. rewrite app_nil_r in H. tauto.
+      * left. apply in_or_app. right. exact H.
+    + unfold flat in H |- *. simpl in H |- *. apply in_app_or in H. destruct H as [H|H].
+      * left. apply in_or_app. left. exact H.
+      * destruct (IH H) as [H1|H1]; [left; apply in_or_app; right; exact H1 | right; exact H1].
+Qed.
+
+Lemma fstep_provenance : forall p s e o s' outs, fstep p s e o = Some (s', outs) ->
+  (forall b, In b (flat (buffer s')) -> In b (flat (buffer s)) \/ In b (ev_parts e)) /\
+  (forall b, In b (prepJ s') -> In b (prepJ s) \/ In b (flat (buffer s'))) /\
+  (forall b, In b (qcommit s') -> In b (qcommit s) \/ In b (flat (buffer s')) \/ In b (ev_parts e)) /\
+  (ev_cmpfail e = false -> cfr s' = cfr s).
+Proof.
+  intros p s e o s' outs H.
+  destruct e; crush_fstep H; simpl; repeat split; st; intros; auto; try discriminate.
+  all: try (match goal with Hb : In _ (flat (buffer_add _ _ _)) |- _ => apply flat_buffer_add in Hb; tauto end).
+  all: try (right; apply (proj1 (dedupb_In _ _)) in H; apply filter_In in H; tauto).
+  all: try (right; left; match goal with E : pick_ok _ _ _ = true |- _ => apply pick_ok_spec in E; destruct E as [_ [_ [E _]]]; apply E; assumption end).
+Qed.
+
+(* where PREPARE and COMMIT broadcasts come from *)
+Lemma fstep_origins : forall p s e o s' outs, fstep p s e o = Some (s', outs) ->
+  forall b, In b (bc_mains outs) ->
+  (ty b = Prepare -> exists m c, e = ERecv m c /\ ty (main m) = PrePrepare /\ rnd b = rnd (main m)
+                       /\ val b = val (main m) /\ justified p m (cfr s) = true) /\
+  (ty b = Commit -> qn p <= nsrc (f_trv Prepare (rnd b) (val b)) (flat (buffer s'))).
+Proof.
+  intros p s e o s' outs H b Hb.
+  destruct e; crush_fstep H; try rule_facts2; prep_facts; rewrite ?bc_mains_app in Hb; simpl in Hb; split_in; subst; simpl;
+    (split; intro Hty; try discriminate Hty).
+  all: st; try contradiction.
+  all: try (apply negb_false_iff in Heqb2; exists m, CmpOk; auto 10; fail).
+  all: rewrite <- H0; exact H1.
+Qed.
+
+(* every part of a justification getJustifiedQrc may return is in the flattened buffer it was computed from *)
+Lemma adm_qrc_sub : forall p all r J, adm_qrc p all r J = true -> forall y, In y J -> In y all.
+Proof.
+  intros p all r J H y Hy. unfold adm_qrc in H. destruct (nullQ p all r).
+  - apply pick_ok_spec in H. destruct H as [_ [_ [H _]]]. auto.
+  - apply andb_true_iff in H. destruct H as [HJ H]. apply list_beq_eq in HJ.
+    destruct (filter (is_ty Prepare) J) as [|p0 Jp'] eqn:EJp; [discriminate|].
+    rewrite !andb_true_iff in H. destruct H as [[[[[[Hpick _] _] Hall] _] _] _].
+    rewrite HJ in Hy. apply in_app_or in Hy. destruct Hy as [Hy|Hy].
+    + rewrite forallb_forall in Hall. specialize (Hall y Hy). rewrite !andb_true_iff in Hall. apply memb_In. tauto.
+    + apply pick_ok_spec in Hpick. destruct Hpick as [_ [_ [Hp _]]]. auto.
+Qed.
+
+(* a successful getSingleJustifiedPrPv names the value of some PREPARE of the list *)
+Lemma single_true_witness : forall q J spr spv, 1 <= q -> single q J = (spr, spv, true) ->
+  exists y, In y J /\ ty y = Prepare /\ rnd y = spr /\ val y = spv.
+Proof.
+  intros q J spr spv Hq H. unfold single in H.
+  remember (filter (is_ty Prepare) J) as P eqn:EP. destruct P as [|p0 P'].
+  - inversion H. apply Nat.leb_le in H3. lia.
+  - destruct (nodupn (map src (p0 :: P')) && forallb (fun b => (rnd b =? rnd p0) && N.eqb (val b) (val p0)) (p0 :: P')); [|discriminate].
+    inversion H; subst. assert (Hin : In p0 (filter (is_ty Prepare) J)) by (rewrite <- EP; left; reflexivity).
+    apply filter_In in Hin. destruct Hin as [H1 H2]. apply mtype_eqb_eq in H2. exists p0. auto.
+Qed.
+
+Ltac bool_facts :=
+  repeat match goal with
+  | H : _ || _ = false |- _ => apply orb_false_iff in H; destruct H
+  | H : _ && _ = true |- _ => apply andb_true_iff in H; destruct H
+  | H : negb _ = false |- _ => apply negb_false_iff in H
+  | H : negb _ = true |- _ => apply negb_true_iff in H
+  | H : N.eqb _ _ = true |- _ => apply N.eqb_eq in H
+  | H : N.eqb _ _ = false |- _ => apply N.eqb_neq in H
+  end.
+
+(* where PRE-PREPARE broadcasts take their value from; the input value never changes once set *)
+Lemma fstep_pp_origin : forall p s e o s' outs, 1 <= nodes p -> fstep p s e o = Some (s', outs) ->
+  (forall b, In b (bc_mains outs) -> ty b = PrePrepare ->
+     (val b = input s' /\ input s' <> 0%N) \/
+     (exists y, In y (flat (buffer s')) /\ ty y = Prepare /\ val y = val b)) /\
+  (input s <> 0%N -> input s' = input s) /\
+  (input s' <> input s -> e = EInput (input s')).
+Proof.
+  intros p s e o s' outs Hn H.
+  pose proof (quorum_pos (nodes p) Hn) as Hq. fold (qn p) in Hq.
+  destruct e; crush_fstep H; try rule_facts2; prep_facts; bool_facts; rewrite ?bc_mains_app; simpl; (split; [|split]); st; intros; split_in; subst;
+    simpl in *; try discriminate; try contradiction; try congruence; auto.
+  all: right; destruct (single_true_witness _ _ _ _ Hq Heqp0) as [y [Y1 [Y2 [Y3 Y4]]]]; exists y;
+       (split; [eapply adm_qrc_sub; eassumption | auto]).
+Qed.
